@@ -43,11 +43,12 @@ Record ver := mkVer {
   v_close_clamp : bool;  (* close_position removes min(weight, address weight) from both weights (was: saturating on each) *)
   v_expand_pull : bool;  (* expand_flow adds its cw20 TransferFrom message to the response (was: built, then dropped) *)
   v_close_snap : bool;   (* close_position takes the epoch's global weight snapshot first when it is still missing *)
-  v_claim_cur : bool     (* claim records the address's current weight for the next epoch (was: the last weight its loop saw) *)
+  v_claim_cur : bool;    (* claim records the address's current weight for the next epoch (was: the last weight its loop saw) *)
+  v_share_cur : bool     (* the share query ignores a first weight entry that only starts next epoch *)
 }.
-Definition v_orig : ver := mkVer false false false false false false false.
-Definition v_c12 : ver := mkVer true true true false true false false.     (* the four flow repairs only *)
-Definition v_fixed : ver := mkVer true true true true true true true.
+Definition v_orig : ver := mkVer false false false false false false false false.
+Definition v_c12 : ver := mkVer true true true false true false false false.     (* the four flow repairs only *)
+Definition v_fixed : ver := mkVer true true true true true true true true.
 
 (* ---- weight.rs ------------------------------------------------------------------------------------- *)
 (* Decimal256 arithmetic at scale 10^18; every intermediate stays far below 2^256 for u64 durations and
@@ -567,6 +568,28 @@ Definition get_rewards (st : state) (user : Z) : outcome (list (Z * Z)) :=
   match last with
   | Some l => if l =? cur then Ok [] else rewards_flows (s_flows st) cur last (s_awh st user) (s_snap st)
   | None => rewards_flows (s_flows st) cur last (s_awh st user) (s_snap st)
+  end.
+
+(* ---- queries/get_rewards_share.rs ------------------------------------------------------------------ *)
+Fixpoint share_loop (fuel : nat) (e cur : Z) (h : list (Z * Z)) (lw : Z) : Z :=
+  match fuel with
+  | O => lw
+  | S fuel' => if cur <? e then lw else share_loop fuel' (e + 1) cur h (match aget e h with Some w => w | None => lw end)
+  end.
+
+(* (global weight snapshot, address weight, share) of the current epoch *)
+Definition rewards_share (v : ver) (st : state) (u : Z) : outcome (Z * Z * Z) :=
+  let cur := s_epoch st in
+  match s_awh st u with
+  | [] => Ok (aget0 cur (s_snap st), 0, 0)
+  | (lu0, lw0) :: _ =>
+      (* repaired: an entry that only applies from a later epoch gives no weight now *)
+      let lw1 := if v_share_cur v && (cur <? lu0) then 0 else lw0 in
+      let lw := share_loop (loop_fuel lu0 cur) lu0 cur (s_awh st u) lw1 in
+      match aget cur (s_snap st) with
+      | Some g => do share <- dec_from_ratio P256 lw g; Ok (g, lw, share)
+      | None => Err E_OTHER
+      end
   end.
 
 (* ---- close_position.rs ----------------------------------------------------------------------------- *)
